@@ -35,12 +35,21 @@ class Line:
         self.on_frame = None  # harness hook: called with the index of each frame once armed
         self.on_protocol_error = None  # set by the wire stack: models the transport's _fatal_error()
         self.dup_in_one_read = False  # "dup" faults: both copies in a single read instead of two
+        # per-direction scripts, consumed (while armed) before the global vector: a run of faults that hits one
+        # direction only, e.g. every acknowledgement lost for a while
+        self.dir_vector = {"h2n": [], "n2h": []}
         self._co = {"h2n": {"data": b"", "when": None}, "n2h": {"data": b"", "when": None}}
 
     # -- fault decision -------------------------------------------------------------------
-    def _fault(self):
+    def _fault(self, direction=None):
         if not self.armed:
             return "ok"
+        dv = self.dir_vector.get(direction)
+        if dv:
+            self.n += 1
+            if self.on_frame is not None:
+                self.on_frame(self.n - 1)
+            return dv.pop(0)
         i = self.n
         self.n += 1
         if self.on_frame is not None:
@@ -80,7 +89,7 @@ class Line:
         if self.closed:
             return
         data = bytes(data)
-        fault = self._fault()
+        fault = self._fault(direction)
         frames, _ = R.split_wire(data)
         fr = frames[0][1] if frames else None
         cancel = frames[0][0] if frames else False
